@@ -1,6 +1,6 @@
 (* C20 — Cron: jobs run exactly at the minutes their spec denotes.  Property theorems only;
    proofs live in Cron/. *)
-From Ergo Require Import Common.Base Cron.Model Cron.Spec Cron.Proofs.
+From Ergo Require Import Common.Base Cron.Model Cron.Spec Cron.CivilSweep Cron.CivilProofs Cron.Proofs Cron.RunProofs.
 Local Open Scope Z_scope.
 
 (* the parser is lexing (regular expressions, Split, Atoi) followed by compilation to masks *)
@@ -8,3 +8,78 @@ Theorem C20_parse_factor : forall s,
   parse_spec s = match lex_spec s with Some a => compile_spec a | None => None end.
 Proof. exact parse_spec_factor. Qed.
 Print Assumptions C20_parse_factor.
+
+(* IsRunAt of the compiled masks = the crontab rule on the syntax tree, for every spec of the
+   grammar, every instant and every UTC offset (hence every zone: a zone only supplies the offset) *)
+Theorem C20_isrunat : forall a m off secs,
+  wf_spec a = true -> compile_spec a = Some m ->
+  spec_run m (civil_of off secs) = matches a (civil_of off secs).
+Proof. intros a m off secs HW HC. apply isrunat_matches; [apply civil_of_good|exact HW|exact HC]. Qed.
+Print Assumptions C20_isrunat.
+
+(* the value bits of a field denote exactly the listed values (per option: soundness + completeness) *)
+Theorem C20_parse_mask_range : forall lo hi step acc v, 0 <= lo -> 1 <= step -> 0 <= v ->
+  Z.testbit (range_bits lo hi step acc) v = Z.testbit acc v || ((lo <=? v) && (v <=? hi) && ((v - lo) mod step =? 0)).
+Proof. exact range_bits_spec. Qed.
+Print Assumptions C20_parse_mask_range.
+
+Theorem C20_parse_mask_field : forall k c, good c -> forall items multi bits sp l,
+  compile_items k multi items bits sp = Some l ->
+  existsb is_star_item items = false -> forallb (allowed k) items = true ->
+  existsb (fun m => mask_run m c) l
+  = Z.testbit bits (fval k c) || existsb (fun m => mask_run m c) sp || existsb (fun it => item_sem k it c) items.
+Proof. exact compile_items_sem. Qed.
+Print Assumptions C20_parse_mask_field.
+
+(* calendar: the date arithmetic is a bijection between day numbers and valid dates *)
+Theorem C20_civil_roundtrip : forall z,
+  let '(y, m, d) := civil_from_days z in valid_date y m d = true /\ days_from_civil y m d = z.
+Proof. exact civil_from_days_inv. Qed.
+Print Assumptions C20_civil_roundtrip.
+
+Theorem C20_civil_of_date : forall y m d, valid_date y m d = true -> civil_from_days (days_from_civil y m d) = (y, m, d).
+Proof. exact civil_from_days_of_date. Qed.
+Print Assumptions C20_civil_of_date.
+
+(* JobSchedule / Schedule report exactly the minutes of the window that the spec denotes, in any zone *)
+Theorem C20_schedule : forall a m (z : zone) since period,
+  wf_spec a = true -> compile_spec a = Some m ->
+  job_schedule m z since period = filter (matches_at a z) (window since period).
+Proof. exact job_schedule_exact. Qed.
+Print Assumptions C20_schedule.
+
+Theorem C20_schedule_window : forall since period t,
+  In t (window since period) <-> exists k, 0 <= k /\ t = trunc_min since + 60 * k /\ k * minute_ns < period.
+Proof. exact window_spec. Qed.
+Print Assumptions C20_schedule_window.
+
+Theorem C20_schedule_all : forall (jobs : list (Z * cronspec * specmask * zone)) since period,
+  (forall n a m z, In (n, a, m, z) jobs -> wf_spec a = true /\ compile_spec a = Some m) ->
+  schedule (map (fun j => let '(n, a, m, z) := j in (n, m, z)) jobs) since period
+  = filter (fun r => negb (is_nil (snd r)))
+      (map (fun t => (t, map (fun j => let '(n, a, m, z) := j in n)
+                             (filter (fun j => let '(n, a, m, z) := j in matches_at a z t) jobs)))
+           (window since period)).
+Proof. exact schedule_exact. Qed.
+Print Assumptions C20_schedule_all.
+
+(* non-vacuity: "30 23 L,15 2-12/2 5L,1#2" parses, is in the grammar, and runs on 2024-02-29 23:30
+   (a leap day, the last day of February) but not one minute later, nor on 2100-02-29 (no such day:
+   the instant is 2100-03-01, odd month) *)
+Example C20_example :
+  let s := [51;48;32;50;51;32;76;44;49;53;32;50;45;49;50;47;50;32;53;76;44;49;35;50] in
+  exists a m, lex_spec s = Some a /\ wf_spec a = true /\ parse_spec s = Some m /\
+    spec_run m (civil_of 0 1709249400) = true /\ spec_run m (civil_of 0 1709249460) = false /\
+    spec_run m (civil_of 0 4107627000) = false.
+Proof. vm_compute. eexists. eexists. repeat split; reflexivity. Qed.
+
+(* the defect repaired in /repo (fix commit 8055d63): the former dL test "month of t+168h differs"
+   fires on 2024-03-24 23:30 Europe/Berlin, which is not the last Sunday of March *)
+Definition old_lastdw_fires (z : zone) (t : Z) : bool :=
+  negb (c_month (civil_of (z t) t) =? c_month (civil_of (z (t + 604800)) (t + 604800))).
+Example C20_add168h_refuted :
+  let berlin := table_off [(1711846800, 7200)] 3600 in
+  old_lastdw_fires berlin 1711319400 = true /\
+  dow_has (ILastW 7) (civil_of (berlin 1711319400) 1711319400) = false /\
+  wd7 (civil_of (berlin 1711319400) 1711319400) = 7.
+Proof. vm_compute. repeat split; reflexivity. Qed.
